@@ -40,6 +40,20 @@ for d in /verif/seeded/*/; do
 done
 # and the unchanged tree must be quiet
 (cd $S/verif/sim && cargo build --release --offline > $S/build.log 2>&1)
-cp $tmp $out
+if [ $# -gt 0 ] && [ -f $out ]; then
+    # partial sweep: replace the lines of the changes that were re-run, keep the others
+    python3 - $tmp $out <<'PY'
+import sys
+new=[l for l in open(sys.argv[1]) if not l.startswith('#')]
+names={l.split()[0] for l in new}
+old=open(sys.argv[2]).read().splitlines(True)
+keep=[l for l in old if l.startswith('#') or l.split()[0] not in names]
+head=[l for l in open(sys.argv[1]) if l.startswith('# seeded-change sweep')]
+body=sorted([l for l in keep if not l.startswith('#')]+new)
+open(sys.argv[2],'w').write(''.join([l for l in keep if l.startswith('#')]+['# partial re-run: '+h[2:] for h in head]+body))
+PY
+else
+    cp $tmp $out
+fi
 git -C /repo worktree remove --force $S/repo; rm -rf $S
 cat $out
